@@ -19,16 +19,16 @@ RULE = ('plugin kinds: resource provider, decorator, logger, span processor, met
         'one hit (snapshot+log+metric+span), span close, shutdown; faults: each of the N dynamic seam calls (resource, decorate, '
         'log_tracepoint, create_span, span.close, metric op, shutdown) raises once; non-trivial = the fault was actually reached and at '
         'least one other plugin was present'
-        ' ; activation given in code as bool / int / text (on and off), a plugin whose order() raises, and every seam of 4 representative sets failing with a BaseException')
+        ' ; activation given in code as bool / int / text (on and off), a plugin whose order() raises, and every seam of 4 representative sets failing with a BaseException; seams include the loading of each plugin (constructor, is_active, order)')
 ASSUMPTIONS = ['faults are Exception subclasses raised by a concrete plugin method (every reported failure is realisable)',
                'built-in plugins are switched off (one separate row loads them as shipped); a plugin whose order() fails may be skipped or placed anywhere, the rest must load in order',
                'the failing plugin\'s own later calls are don\'t-cares']
 
-KINDS = ['ResA', 'DecoA', 'LoggerA', 'SpanA', 'MetricA', 'AllInOne', 'Missing', 'CtorRaises', 'SwitchedOff']
+KINDS = ['ResA', 'DecoA', 'LoggerA', 'SpanA', 'MetricA', 'AllInOne', 'Missing', 'CtorRaises', 'SwitchedOff', 'ImportExits']
 ACTIVATION = ['OnBool', 'OnInt', 'OnText', 'OffBool', 'OffInt', 'OrderRaises']
 ORDERS = ['asc', 'desc', 'equal', 'none']
 PATHS = {'ResA': 'mc.plugs.ResA', 'DecoA': 'mc.plugs.DecoA', 'LoggerA': 'mc.plugs.LoggerA', 'SpanA': 'mc.plugs.SpanA', 'MetricA': 'mc.plugs.MetricA',
-         'AllInOne': 'mc.plugs.AllInOne', 'Missing': 'no.such.module.Plugin', 'CtorRaises': 'mc.plugs.DecoB', 'SwitchedOff': 'mc.plugs.DefaultActivation',
+         'AllInOne': 'mc.plugs.AllInOne', 'Missing': 'no.such.module.Plugin', 'ImportExits': 'mc.plug_import_exits.Plugin', 'CtorRaises': 'mc.plugs.DecoB', 'SwitchedOff': 'mc.plugs.DefaultActivation',
          'SpanB': 'mc.plugs.SpanB', 'MetricB': 'mc.plugs.MetricB', 'ResB': 'mc.plugs.ResB', 'SwitchedOff2': 'mc.plugs.DefaultActivation2',
          'OnBool': 'mc.plugs.DefaultActivation3', 'OnInt': 'mc.plugs.DefaultActivation3', 'OnText': 'mc.plugs.DefaultActivation3',
          'OffBool': 'mc.plugs.DefaultActivation4', 'OffInt': 'mc.plugs.DefaultActivation4', 'OrderRaises': 'mc.plugs.OrderRaises'}
@@ -87,7 +87,7 @@ def scenario(desc, fault_at=None, fault_pair=None):
     from deepproto.proto.tracepoint.v1.tracepoint_pb2 import TracePointConfig as PB, SnapshotResponse, Metric, MetricType
     names = desc['set']
     j = plugs.reset()
-    for n, o in zip(names, order_values(names, desc['orders'])):
+    for n, o in zip(names, desc.get('ov') or order_values(names, desc['orders'])):
         cls = PATHS[n].rsplit('.', 1)[1]
         plugs.SCRIPT[cls] = {'order': o, 'ctor_raises': n == 'CtorRaises'}
     j.fault_at = fault_at
@@ -219,10 +219,27 @@ def run_case(ctx, desc):
             continue
         who, what = hit
         others = [p for p in base_by if p != who] if k2 is None else []
+        loading = what in ('ctor', 'is_active', 'order')      # the plugin is not loaded at all: none of its contributions, all of the others'
         if others or k2 is not None:
             ctx.nt((tuple(names), desc['orders'], k, k2))
         flabel = f'{label}, {who}.{what} (seam call #{k}{"" if k2 is None else " and #%d" % k2}) raises'
         case = dict(desc, only_fault=[k, k2])
+        if loading and k2 is None:
+            # ... which is the fault-free run of the set without it (same orders): e.g. the next logger is the one that logs now
+            keep = [i for i, n_ in enumerate(names) if PATHS[n_].rsplit('.', 1)[1] != who]
+            ovs = order_values(names, desc['orders'])
+            ref = scenario(dict(desc, set=[names[i] for i in keep], ov=[ovs[i] for i in keep]))
+            ref_by, ref_attrs, ref_res = by_plugin(ref['events']), attrs_of(ref['sent']), resource_of(ref['polls'])
+            got_by = by_plugin(obs['events'])
+            got_by.pop(who, None)
+            if obs['start_exc'] or obs['escaped'] or obs['shutdown_exc'] or obs['started_after']:
+                pass        # reported below
+            elif got_by != ref_by or attrs_of(obs['sent']) != ref_attrs or resource_of(obs['polls']) != ref_res or len(obs['sent']) != len(ref['sent']):
+                ctx.violation(f'C20/plugin-that-cannot-be-loaded-changes-the-others/{what}', f'{flabel}: the other plugins received {got_by}, snapshot attributes {attrs_of(obs["sent"])}, '
+                              f'resource {resource_of(obs["polls"])}; without that plugin configured: {ref_by}, {ref_attrs}, {ref_res}', case)
+                continue
+            else:
+                continue
         if obs['start_exc']:
             ctx.violation(f'C20/start-fails/{what}', f'{flabel}: Deep.start raised {obs["start_exc"]}', case)
             continue
@@ -249,7 +266,7 @@ def run_case(ctx, desc):
             continue
         # decorations / resource: only the failed contribution may be missing
         ga, gr = attrs_of(obs['sent']), resource_of(obs['polls'])
-        if what == 'decorate':
+        if what == 'decorate' or loading:
             own = {'DecoA': ['deco_DecoA'], 'AllInOne': ['deco_all'], 'DecoB': ['deco_DecoB'], 'DefaultActivation3': ['deco_default3'],
                    'OrderRaises': ['deco_order_raises'], 'DefaultActivation': ['deco_default']}.get(who, [])
             exp = [{k_: v for k_, v in a.items() if k_ not in own} for a in base_attrs]
@@ -258,7 +275,7 @@ def run_case(ctx, desc):
         if ga != exp:
             ctx.violation(f'C20/snapshot-decorations/{what}', f'{flabel}: snapshot attributes {ga}, expected {exp}', case)
             continue
-        if what == 'resource':
+        if what == 'resource' or loading:
             own = {'ResA': ['res_ResA'], 'ResB': ['res_ResB'], 'AllInOne': ['res_all']}.get(who, [])
             expr = {k_: v for k_, v in base_res.items() if k_ not in own}
         else:
